@@ -294,6 +294,18 @@ func (p *c16) pipeline(rec *core.Recorder, r *core.Rand, viaLoader bool) {
 	if failed {
 		return
 	}
+	autoB := !viaLoader && r.P(1, 3)
+	var emptyDir string
+	if autoB {
+		d, err := os.MkdirTemp("", "verif-c16e-")
+		if err != nil {
+			rec.HarnessFault("mkdtemp: %v", err)
+			return
+		}
+		emptyDir = d
+		defer os.RemoveAll(emptyDir)
+		rec.Count("destination-with-auto-reload-and-file-loader", 1)
+	}
 	for k := 0; k < 3; k++ {
 		ctx := ctxOf(k)
 		// engine C: the source
@@ -302,6 +314,11 @@ func (p *c16) pipeline(rec *core.Recorder, r *core.Rand, viaLoader bool) {
 		var rb Result
 		rb.Panicked, rb.Site, rb.PanicVal, rb.Stack = core.Guard(func() {
 			b := twig.New()
+			if !viaLoader && autoB {
+				// "any engine": also one with auto-reload on and a timestamp-aware loader that has none of the names
+				b.SetAutoReload(true)
+				b.RegisterLoader(twig.NewFileSystemLoader([]string{emptyDir}))
+			}
 			if viaLoader {
 				b.RegisterLoader(twig.NewCompiledLoader(dir))
 			} else {
